@@ -226,6 +226,7 @@ type loopInfo struct {
 	back   []*ssa.BasicBlock // sources of back edges
 	ord    int
 	zeroOff map[*ssa.Phi]bool // loop-carried slices kept at literal offset 0
+	preserved [][3]string     // (component, ref, term at loop head) declared unchanged by the loop
 }
 
 func findLoops(fn *ssa.Function) (map[*ssa.BasicBlock]*loopInfo, []*loopInfo) {
@@ -734,9 +735,33 @@ func (vc *VC) execInstr(fr *Frame, in ssa.Instruction, st *State) {
 		vc.fatalf("channel operation (outside the subset)")
 	case *ssa.Range:
 		fr.env[x] = Val{T: vc.operand(fr, x.X).T, Typ: x.X.Type()}
-		vc.fatalf("range over map/string (needs explicit support)")
+		if _, isMap := x.X.Type().Underlying().(*types.Map); !isMap {
+			vc.fatalf("range over string (outside the subset)")
+		}
 	case *ssa.Next:
-		vc.fatalf("range iteration (outside the subset)")
+		// Iteration over a map is modelled as a nondeterministic choice: whether there is another entry is arbitrary,
+		// and the entry is any key present in the map now. This over-approximates every iteration order (and does
+		// not promise that every key is visited, nor termination): sound for safety/partial-correctness clauses.
+		if x.IsString {
+			vc.fatalf("range over string (outside the subset)")
+			break
+		}
+		it := vc.operand(fr, x.Iter)
+		mt, ok := it.Typ.Underlying().(*types.Map)
+		if !ok {
+			vc.fatalf("range iteration over %v (outside the subset)", it.Typ)
+			break
+		}
+		valC, domC := vc.mapComps(mt)
+		okv := vc.freshConst("next.ok", "Bool")
+		k := vc.freshVal(st, mt.Key(), "next.k")
+		kt := vc.valTerm(k)
+		vc.assume(st, fmt.Sprintf("(=> %s (and (not (= %s 0)) (select (select %s %s) %s)))", okv, it.T, vc.get(st, domC), it.T, kt))
+		v := vc.termVal(vc.define("next.v", vc.sortOf(mt.Elem()), fmt.Sprintf("(select (select %s %s) %s)", vc.get(st, valC), it.T, kt)), mt.Elem())
+		vc.assume(st, vc.rangeAssume(v))
+		vc.assume(st, vc.allocBound(st, v))
+		fr.env[x] = Val{Tuple: []Val{{T: okv, Typ: types.Typ[types.Bool]}, k, v}, Typ: x.Type()}
+		vc.note("range over a map is a nondeterministic iteration (any present key, any number of times); completeness of the iteration is not claimed")
 	case *ssa.SliceToArrayPointer, *ssa.MultiConvert:
 		vc.fatalf("unsupported conversion %T", in)
 	default:
@@ -981,7 +1006,9 @@ func (vc *VC) makeIface(v Val, from types.Type, to types.Type) Val {
 	term := fmt.Sprintf("(%s %s)", box, inner)
 	tag := vc.typeTag(from)
 	vc.emit(fmt.Sprintf("(assert (and (= (%s %s) %s) (= (dyntype %s) %d) (> %s 0)))", unbox, term, inner, term, tag, term))
-	return Val{T: term, Typ: to}
+	orig := v
+	orig.Typ = from
+	return Val{T: term, Typ: to, Boxed: &orig}
 }
 
 func (vc *VC) typeAssert(fr *Frame, x *ssa.TypeAssert, st *State) Val {
@@ -996,10 +1023,12 @@ func (vc *VC) typeAssert(fr *Frame, x *ssa.TypeAssert, st *State) Val {
 		}
 		val = v.T
 	} else {
-		_, unbox := vc.boxFns(x.AssertedType)
+		box, unbox := vc.boxFns(x.AssertedType)
 		tag := vc.typeTag(x.AssertedType)
 		ok = fmt.Sprintf("(and (not (= %s 0)) (= (dyntype %s) %d))", v.T, v.T, tag)
 		val = fmt.Sprintf("(%s %s)", unbox, v.T)
+		// an interface value of dynamic type T is the box of its content (boxing is a bijection per type)
+		vc.emit(fmt.Sprintf("(assert (=> %s (= (%s %s) %s)))", ok, box, val, v.T))
 	}
 	if x.CommaOk {
 		okc := vc.define("taok", "Bool", ok)
@@ -1062,7 +1091,7 @@ func (vc *VC) convert(fr *Frame, x *ssa.Convert, st *State) Val {
 		return Val{Sl: &SliceVal{r, "0", ln, ln}, Typ: x.Type()}
 	}
 	if _, ok := from.(*types.Slice); ok && tok && tb.Info()&types.IsString != 0 {
-		s := vc.freshConst("b2s", "String")
+		s := vc.freshConst("b2s", "Str")
 		el := from.(*types.Slice).Elem()
 		row := fmt.Sprintf("(select %s %s)", vc.get(st, vc.elemComp(el)), v.Sl.Arr)
 		vc.emit(fmt.Sprintf("(assert (= (str.len %s) %s))", s, v.Sl.Len))
